@@ -537,6 +537,11 @@ func (P *Prog) foldGlobals(t *Term) *Term {
 		if u.Op != "load" {
 			return nil
 		}
+		// an element or field read below a slice-typed constant: the slice was
+		// folded to its literal and the projection already selected the value
+		if x := u.Args[0]; (x.Op == "const" || x.Op == "arr") && closedConst(x) {
+			return x
+		}
 		var path []string
 		a := u.Args[0]
 		for {
